@@ -302,13 +302,13 @@ func runC11(c *Ctx) {
 				bad = "the line is not trimmed like the scanner's"
 				continue
 			}
-			nl := u.Call("strings.IndexByte", types.Typ[types.Int], u.mk("slice", "", types.Typ[types.String], text, idx, nil, nil), u.ConstVal(constantInt('\n'), types.Typ[types.Uint8]))
+			nl := u.LibCall("strings.IndexByte", types.Typ[types.Int], u.Slice(text, idx, nil, nil, types.Typ[types.String]), u.ConstVal(constantInt('\n'), types.Typ[types.Uint8]))
 			end := u.ITE(u.ToBool(u.Eq(nl, u.Int(-1))), u.Len(text), u.Bin(token.ADD, nl, idx, types.Typ[types.Int]))
-			want := u.mk("slice", "", types.Typ[types.String], text, idx, end, nil)
+			want := u.Slice(text, idx, end, nil, types.Typ[types.String])
 			if ok, why := semEqual(u, line.Args[0], want); !ok {
 				// accept the commuted sum
 				end2 := u.ITE(u.ToBool(u.Eq(nl, u.Int(-1))), u.Len(text), u.Bin(token.ADD, idx, nl, types.Typ[types.Int]))
-				want2 := u.mk("slice", "", types.Typ[types.String], text, idx, end2, nil)
+				want2 := u.Slice(text, idx, end2, nil, types.Typ[types.String])
 				if ok2, _ := semEqual(u, line.Args[0], want2); !ok2 {
 					bad = "the retrieved text is not RulesText[idx : next newline or end]: " + why
 				}
